@@ -554,9 +554,9 @@ func (c *vc8Case) step(i int) {
 			}
 		}
 		dst.bits[drow] = cp
-		if len(idx.touched) == 0 {
-			idx.touched[0] = true // an index without shards executes on shard 0
-		}
+		// an index without available shards executes on shard 0 (and creates that
+		// fragment); "touched" is an upper bound, so shard 0 is always added
+		idx.touched[0] = true
 		dst.topnOK = dst.topnOK && !vc8SteerD14
 		c.logf("%s: %s", idx.Name, q)
 		c.cls["store"] = true
